@@ -333,14 +333,22 @@ def analyse(func, contract, source=None):
                     par = kw.value.value
     loops = [st for st in fd.body if isinstance(st, ast.For) and isinstance(st.iter, ast.Call) and ast.unparse(st.iter.func).endswith("prange")]
     nested = [n for n in ast.walk(fd) if isinstance(n, ast.For) and isinstance(n.iter, ast.Call) and ast.unparse(n.iter.func).endswith("prange")]
-    if len(nested) != len(loops):
-        raise Unsupported("prange loop that is not at the top level of the function")
-    if not loops:
+    inner_loops = [n for n in nested if n not in loops]
+    for lp in inner_loops:
+        # a prange loop inside a branch / another loop: only loops whose body stores into no array are analysed (scalar reductions are what they can do wrong)
+        for node in ast.walk(ast.Module(body=lp.body, type_ignores=[])):
+            if isinstance(node, (ast.Assign, ast.AugAssign)):
+                for t in (node.targets if isinstance(node, ast.Assign) else [node.target]):
+                    if isinstance(t, ast.Subscript):
+                        raise Unsupported("prange loop that is not at the top level of the function and stores into an array")
+    if not loops and not inner_loops:
         raise Unsupported("no prange loop")
     analyse.last_calls = []
     if par is not True:
         return [("%s::sequential" % f.__name__, "frame", [], z3.BoolVal(True))], f.__name__
     obligations = []
+    for ordinal, lp in enumerate(inner_loops, 1):
+        obligations.append(("%s::no-shared-scalar-write(nested prange @%d)#%d" % (f.__name__, lp.lineno, ordinal), "frame", [], z3.BoolVal(_no_shared_scalar_write_nested(fd, lp))))
     calls_seen = set()
     for ordinal, loop in enumerate(loops, 1):
         obligations.append(("%s::no-shared-scalar-write#%d" % (f.__name__, ordinal), "frame", [], z3.BoolVal(_no_shared_scalar_write(fd, loop))))
@@ -424,6 +432,27 @@ def _no_shared_scalar_write(fd, loop):
         if name in before and not _rebound_first(loop.body, name):
             first_use_is_store = False
     return first_use_is_store
+
+
+def _no_shared_scalar_write_nested(fd, loop):
+    """as _no_shared_scalar_write for a prange loop anywhere in the function: names assigned in its body must not be bound earlier in the function (by source
+    position, parameters included) unless every iteration assigns them before reading, and must not be read after the loop"""
+    inside = _assigned_names(loop.body)
+    before, after = {a.arg for a in fd.args.args}, set()
+    for node in ast.walk(fd):
+        ln = getattr(node, "lineno", None)
+        if ln is None:
+            continue
+        if ln < loop.lineno and isinstance(node, (ast.Assign, ast.AugAssign, ast.For)):
+            before |= _assigned_names([node])
+        if ln > loop.end_lineno and isinstance(node, ast.Name) and isinstance(node.ctx, ast.Load):
+            after.add(node.id)
+    for name in inside & (before | after):
+        if name in after:
+            return False
+        if name in before and not _rebound_first(loop.body, name):
+            return False
+    return True
 
 
 def _rebound_first(stmts, name):
